@@ -1166,7 +1166,7 @@ class Result:
         environments = environments.where(environment_id=set(interactions["environment_id"]))
         evaluators   = evaluators  .where(evaluator_id  =set(interactions["evaluator_id"]))
 
-        return Result(environments,learners,evaluators,interactions)
+        return Result(environments,learners,evaluators,interactions,self.experiment)
 
     def filter_val(self, pred:Callable[[Mapping[str,Any]],bool] = None, **kwargs: Any) -> 'Result':
         """Filter the result to only contain data about specific evaluators.
@@ -1192,7 +1192,7 @@ class Result:
         environments = environments.where(environment_id=set(interactions["environment_id"]))
         learners     = learners    .where(learner_id    =set(interactions["learner_id"]))
 
-        return Result(environments,learners,evaluators,interactions)
+        return Result(environments,learners,evaluators,interactions,self.experiment)
 
     def filter_int(self, pred:Callable[[Mapping[str,Any]],bool] = None, **kwargs: Any) -> 'Result':
         """Filter the result to only contain data about specific interactions.
@@ -1222,7 +1222,7 @@ class Result:
         if len(lrn) != len(learners)    : learners     = learners    .where(learner_id    =lrn)
         if len(val) != len(evaluators)  : evaluators   = evaluators  .where(evaluator_id  =val)
 
-        return Result(environments,learners,evaluators,interactions)
+        return Result(environments,learners,evaluators,interactions,self.experiment)
 
     def where_best(self,
         l:Union[str, Sequence[str]],
